@@ -69,6 +69,19 @@ fn empty_table(self_id: [u8; 32], k: usize) -> KademliaRoutingTable {
     KademliaRoutingTable::new(NodeId::from_bytes(self_id), k)
 }
 
+/// The state `KademliaRoutingTable::new` produces (that it does is obligation
+/// C02/table/new_is_256_empty_buckets), built without reallocation so that CBMC can
+/// constant-propagate bucket lengths.
+fn literal_empty_table(self_id: [u8; 32], k: usize) -> KademliaRoutingTable {
+    let mut buckets = Vec::with_capacity(256);
+    let mut i = 0;
+    while i < 256 {
+        buckets.push(KBucket { nodes: Vec::new(), max_size: k });
+        i += 1;
+    }
+    KademliaRoutingTable { buckets, node_id: NodeId::from_bytes(self_id), _k_value: k }
+}
+
 /// Number of table entries whose id equals `id` (all 256 buckets).
 fn count_id(t: &KademliaRoutingTable, id: &[u8; 32]) -> usize {
     let mut n = 0;
@@ -197,6 +210,281 @@ fn c02_bucket_index_node_modular() {
     let r = t.get_bucket_index(&NodeId::from_bytes(other));
     assert!(check_bucket_index(&me, &other, r, ""), "C02/bucket_index/node_first_differing_bit_modular");
 }
+
+// ---------------------------------------------------------------------------
+// Routing-table view contracts: add_node / remove_node keep the table a set of
+// peers (each id once, never the local id, every node in the bucket of its first
+// differing bit, bucket length <= k) and change the view exactly as stated.
+// bounded: histories of at most OPS operations from the empty table.
+// ---------------------------------------------------------------------------
+
+fn bucket_has<const CAP: usize>(t: &KademliaRoutingTable, b: usize, q: &[u8; 32]) -> bool {
+    let nodes = &t.buckets[b].nodes;
+    let mut found = false;
+    let mut j = 0;
+    while j < CAP {
+        if j < nodes.len() && nodes[j].id.as_bytes() == q {
+            found = true;
+        }
+        j += 1;
+    }
+    found
+}
+
+fn table_history<const OPS: usize>() {
+    let me: [u8; 32] = kani::any();
+    let k: usize = kani::any();
+    kani::assume(k >= 1 && k <= 2);
+    let mut t = ManuallyDrop::new(empty_table(me, k));
+    // universally quantified probe id
+    let q: [u8; 32] = kani::any();
+    let bq = spec_first_diff(&me, &q);
+    let stop: usize = kani::any();
+    kani::assume(stop <= OPS);
+    let mut i = 0;
+    while i < OPS {
+        if i < stop {
+            let id: [u8; 32] = kani::any();
+            let is_add: bool = kani::any();
+            let had_q = bucket_has::<OPS>(&t, bq, &q);
+            let bid = spec_first_diff(&me, &id);
+            let had_id = bucket_has::<OPS>(&t, bid, &id);
+            let old_len = t.buckets[bid].nodes.len();
+            if is_add {
+                let r = t.add_node(mk_node(id));
+                let ok = r.is_ok();
+                std::mem::forget(r);
+                let has_q = bucket_has::<OPS>(&t, bq, &q);
+                assert!(
+                    has_q == (had_q || (q == id && id != me && ok)),
+                    "C02/table/add_view_exact"
+                );
+                if id != me && !had_id && old_len < k {
+                    assert!(ok, "C02/table/add_accepts_when_room");
+                }
+                kani::cover!(ok && had_id, "C02/table/cover_readd_known_peer");
+                kani::cover!(!ok, "C02/table/cover_bucket_full");
+                kani::cover!(id == me, "C02/table/cover_add_self");
+            } else {
+                t.remove_node(&NodeId::from_bytes(id));
+                let has_q = bucket_has::<OPS>(&t, bq, &q);
+                assert!(has_q == (had_q && q != id), "C02/table/remove_view_exact");
+                kani::cover!(had_id, "C02/table/cover_remove_present");
+            }
+        }
+        i += 1;
+    }
+    // representation invariant via universally quantified witnesses
+    let b1: usize = kani::any();
+    let j1: usize = kani::any();
+    let b2: usize = kani::any();
+    let j2: usize = kani::any();
+    kani::assume(b1 < 256 && b2 < 256);
+    assert!(t.buckets.len() == 256, "C02/table/256_buckets");
+    assert!(t.buckets[b1].nodes.len() <= k, "C02/table/bucket_len_le_k");
+    if j1 < t.buckets[b1].nodes.len() {
+        let n1 = *t.buckets[b1].nodes[j1].id.as_bytes();
+        assert!(n1 != me, "C02/table/never_lists_local_node");
+        assert!(spec_first_diff(&me, &n1) == b1, "C02/table/node_in_bucket_of_first_differing_bit");
+        if j2 < t.buckets[b2].nodes.len() && (b1 != b2 || j1 != j2) {
+            let n2 = *t.buckets[b2].nodes[j2].id.as_bytes();
+            assert!(n1 != n2, "C02/table/each_peer_once");
+        }
+    }
+}
+
+// @verif property=C02 class=bounded bound="histories<=2 ops from empty table, k in 1..=2" fns=KademliaRoutingTable::new,KademliaRoutingTable::add_node,KademliaRoutingTable::remove_node,KBucket::add_node,KBucket::remove_node uses=table_history tier=quick panic=violation
+#[kani::proof]
+#[kani::unwind(257)]
+fn c02_table_history_2() {
+    table_history::<2>();
+}
+
+// @verif property=C02 class=bounded bound="histories<=3 ops from empty table, k in 1..=2" fns=KademliaRoutingTable::new,KademliaRoutingTable::add_node,KademliaRoutingTable::remove_node,KBucket::add_node,KBucket::remove_node uses=table_history tier=thorough panic=violation
+#[kani::proof]
+#[kani::unwind(257)]
+fn c02_table_history_3() {
+    table_history::<3>();
+}
+
+// ---------------------------------------------------------------------------
+// find_closest_nodes: exactly the min(n,|S|) closest, ascending, each once.
+// Modular: get_bucket_index_for_key is replaced by its contract (the result is
+// the first differing bit, proved above); bucket *positions* of the nodes and of
+// the key are concrete per harness instance, all other id/key bits symbolic.
+// ---------------------------------------------------------------------------
+
+static mut STUB_TARGET: usize = 0;
+fn contract_stub_bucket_for_key(_t: &KademliaRoutingTable, _k: &DhtKey) -> usize {
+    unsafe { STUB_TARGET }
+}
+
+// Contract of KBucket::get_nodes: "returns exactly the bucket's entries" (proved on the real fn by
+// c02_kbucket_get_nodes_contract). CBMC cannot constant-propagate Vec lengths read back from the
+// 8 KiB bucket array, which makes the 512 inner loops of the bucket walk unwind to the global bound;
+// the stub therefore serves each bucket's entries from harness-owned vectors of known length (the
+// same NodeInfo values that were pushed into the real table) and asserts that the ghost view agrees
+// with the real bucket (`C02/fcn/ghost_view_matches_bucket`).
+const MAX_GROUPS: usize = 4;
+static mut GHOST_BUCKET: [*const KBucket; MAX_GROUPS] = [std::ptr::null(); MAX_GROUPS];
+static mut GHOST_NODES: [*const Vec<NodeInfo>; MAX_GROUPS] = [std::ptr::null(); MAX_GROUPS];
+static EMPTY_NODES: [NodeInfo; 0] = [];
+fn contract_stub_get_nodes(b: &KBucket) -> &[NodeInfo] {
+    let p = b as *const KBucket;
+    let mut g = 0;
+    while g < MAX_GROUPS {
+        unsafe {
+            if !GHOST_BUCKET[g].is_null() && std::ptr::eq(p, GHOST_BUCKET[g]) {
+                let v: &Vec<NodeInfo> = &*GHOST_NODES[g];
+                assert!(b.nodes.len() == v.len(), "C02/fcn/ghost_view_matches_bucket");
+                return v.as_slice();
+            }
+        }
+        g += 1;
+    }
+    assert!(b.nodes.len() == 0, "C02/fcn/ghost_view_matches_bucket");
+    &EMPTY_NODES
+}
+
+fn fcn_check<const B: usize>(target: usize, pos: [usize; B]) {
+    let me: [u8; 32] = kani::any();
+    let key: [u8; 32] = kani::any();
+    // contract of get_bucket_index_for_key (C02/bucket_index/key_first_differing_bit)
+    kani::assume(spec_first_diff(&me, &key) == target);
+    unsafe {
+        STUB_TARGET = target;
+    }
+    let mut t = ManuallyDrop::new(literal_empty_table(me, 8));
+    let mut ghost: [ManuallyDrop<Vec<NodeInfo>>; MAX_GROUPS] = [
+        ManuallyDrop::new(Vec::with_capacity(B)),
+        ManuallyDrop::new(Vec::with_capacity(B)),
+        ManuallyDrop::new(Vec::with_capacity(B)),
+        ManuallyDrop::new(Vec::with_capacity(B)),
+    ];
+    let mut ghost_pos = [usize::MAX; MAX_GROUPS];
+    let mut ids = [[0u8; 32]; B];
+    let mut i = 0;
+    while i < B {
+        let id: [u8; 32] = kani::any();
+        // representation invariant of the table (proved for add/remove histories above)
+        kani::assume(id != me);
+        kani::assume(spec_first_diff(&me, &id) == pos[i]);
+        let mut j = 0;
+        while j < i {
+            kani::assume(ids[j] != id);
+            j += 1;
+        }
+        ids[i] = id;
+        t.buckets[pos[i]].nodes.push(mk_node(id));
+        // ghost view, grouped by bucket (positions are concrete)
+        let mut g = 0;
+        while g < MAX_GROUPS {
+            if ghost_pos[g] == pos[i] || ghost_pos[g] == usize::MAX {
+                ghost_pos[g] = pos[i];
+                ghost[g].push(mk_node(id));
+                break;
+            }
+            g += 1;
+        }
+        i += 1;
+    }
+    let mut g = 0;
+    while g < MAX_GROUPS {
+        if ghost_pos[g] != usize::MAX {
+            unsafe {
+                GHOST_BUCKET[g] = &t.buckets[ghost_pos[g]] as *const KBucket;
+                GHOST_NODES[g] = &*ghost[g] as *const Vec<NodeInfo>;
+            }
+        }
+        g += 1;
+    }
+    let n: usize = kani::any();
+    kani::assume(n <= 64);
+    let res = ManuallyDrop::new(t.find_closest_nodes(&DhtKey::from_bytes(key), n));
+    let want = if n < B { n } else { B };
+    assert!(res.len() == want, "C02/fcn/len_is_min_n_size");
+    kani::cover!(res.len() == B, "C02/fcn/cover_all_returned");
+    kani::cover!(res.len() < B && res.len() > 0, "C02/fcn/cover_truncated");
+    let mut i = 0;
+    while i < B {
+        if i < res.len() {
+            let ri = res[i].id.as_bytes();
+            // member of the table
+            let mut member = false;
+            let mut j = 0;
+            while j < B {
+                if &ids[j] == ri {
+                    member = true;
+                }
+                j += 1;
+            }
+            assert!(member, "C02/fcn/result_is_table_entry");
+            if i + 1 < res.len() {
+                assert!(dist_lt(ri, res[i + 1].id.as_bytes(), &key), "C02/fcn/strictly_ascending_no_duplicates");
+            }
+        }
+        i += 1;
+    }
+    // nothing left out is closer than the farthest returned
+    let mut j = 0;
+    while j < B {
+        let mut inres = false;
+        let mut i = 0;
+        while i < B {
+            if i < res.len() && res[i].id.as_bytes() == &ids[j] {
+                inres = true;
+            }
+            i += 1;
+        }
+        if !inres {
+            assert!(res.len() == n, "C02/fcn/omits_only_when_full");
+            if n > 0 && res.len() == n {
+                assert!(!dist_lt(&ids[j], res[n - 1].id.as_bytes(), &key), "C02/fcn/no_omitted_peer_is_closer");
+            }
+        }
+        j += 1;
+    }
+}
+
+// @verif property=C02 class=complete fns=KBucket::get_nodes tier=quick,thorough panic=violation
+#[kani::proof]
+#[kani::unwind(4)]
+fn c02_kbucket_get_nodes_contract() {
+    let mut b = ManuallyDrop::new(KBucket { nodes: Vec::with_capacity(2), max_size: 8 });
+    if kani::any() {
+        b.nodes.push(mk_node(kani::any()));
+    }
+    if kani::any() {
+        b.nodes.push(mk_node(kani::any()));
+    }
+    let s = b.get_nodes();
+    assert!(s.len() == b.nodes.len() && s.as_ptr() == b.nodes.as_ptr(), "C02/kbucket/get_nodes_returns_exactly_the_entries");
+}
+
+macro_rules! fcn_harness {
+    ($name:ident, $b:expr, $t:expr, $pos:expr) => {
+        #[kani::proof]
+        #[kani::stub(KademliaRoutingTable::get_bucket_index_for_key, contract_stub_bucket_for_key)]
+        #[kani::stub(KBucket::get_nodes, contract_stub_get_nodes)]
+        #[kani::unwind(257)]
+        fn $name() {
+            fcn_check::<$b>($t, $pos);
+        }
+    };
+}
+
+// @verif property=C02 class=bounded bound="2 nodes; key bucket 100, node buckets [99,102]" fns=KademliaRoutingTable::find_closest_nodes uses=fcn_check,fcn_harness,contract_stub_get_nodes tier=thorough panic=violation
+fcn_harness!(c02_fcn_2_t100_far_near, 2, 100, [99, 102]);
+// @verif property=C02 class=bounded bound="1 node; key bucket 250, node bucket [255]" fns=KademliaRoutingTable::find_closest_nodes uses=fcn_check,fcn_harness,contract_stub_get_nodes tier=thorough panic=violation
+fcn_harness!(c02_fcn_1_t250_top, 1, 250, [255]);
+// @verif property=C02 class=bounded bound="3 nodes; key bucket 100, node buckets [99,99,102]" fns=KademliaRoutingTable::find_closest_nodes uses=fcn_check,fcn_harness,contract_stub_get_nodes tier=quick,thorough panic=violation
+fcn_harness!(c02_fcn_3_t100_far_far_near, 3, 100, [99, 99, 102]);
+// @verif property=C02 class=bounded bound="3 nodes; key bucket 250, node buckets [255,255,0]" fns=KademliaRoutingTable::find_closest_nodes uses=fcn_check,fcn_harness,contract_stub_get_nodes tier=quick,thorough panic=violation
+fcn_harness!(c02_fcn_3_t250_top_saturation, 3, 250, [255, 255, 0]);
+// @verif property=C02 class=bounded bound="3 nodes; key bucket 3, node buckets [0,0,255]" fns=KademliaRoutingTable::find_closest_nodes uses=fcn_check,fcn_harness,contract_stub_get_nodes tier=quick,thorough panic=violation
+fcn_harness!(c02_fcn_3_t3_bottom_saturation, 3, 3, [0, 0, 255]);
+// @verif property=C02 class=bounded bound="3 nodes; key bucket 128, node buckets [128,128,128]" fns=KademliaRoutingTable::find_closest_nodes uses=fcn_check,fcn_harness,contract_stub_get_nodes tier=quick,thorough panic=violation
+fcn_harness!(c02_fcn_3_t128_same_bucket, 3, 128, [128, 128, 128]);
 
 // Native replay slot: `cargo kani playback` compiles the crate with cfg(test)+cfg(kani);
 // the driver writes the generated concrete-playback unit test here before running it.
